@@ -173,9 +173,8 @@ def maxL : List α → Option α
 /-- numpy `_lerp` -/
 def lerp (a b t : α) : α := if 1 / 2 ≤ t then b - (b - a) * (1 - t) else a + (b - a) * t
 
-/-- `np.percentile(s, p)` (method "linear") on an already sorted list -/
-def percentile [FloorNat α] (s : List α) (p : α) : Except Err α :=
-  let q := p / ((100 : Nat) : α)
+/-- `np.quantile(s, q)` (method "linear") on an already sorted list -/
+def quantile [FloorNat α] (s : List α) (q : α) : Except Err α :=
   if ¬ (0 ≤ q ∧ q ≤ 1) then .error .percentileRange else
   match s.head?, s.getLast? with
   | some first, some last =>
@@ -189,6 +188,9 @@ def percentile [FloorNat α] (s : List α) (p : α) : Except Err α :=
       | some a, some b => .ok (lerp a b (v - (lo : α)))
       | _, _ => .error .empty
   | _, _ => .error .empty
+
+/-- `np.percentile(s, p)` = `np.quantile(s, p / 100)` -/
+def percentile [FloorNat α] (s : List α) (p : α) : Except Err α := quantile s (p / ((100 : Nat) : α))
 
 /-- `compute_percentiles(coverage)` -/
 def computePercentiles (coverage : α) : α × α :=
@@ -273,8 +275,8 @@ def median (s : List α) : Option α :=
     | some a, some b => some ((a + b) / 2)
     | _, _ => none
 
-/-- pandas `quantile(q)` = `np.percentile(values, q * 100)` -/
-def pquantile (s : List α) (q : α) : Except Err α := percentile s (q * ((100 : Nat) : α))
+/-- pandas `quantile(q)` = `np.quantile(values without NaN, q)` -/
+def pquantile (s : List α) (q : α) : Except Err α := quantile s q
 
 structure ViolinStats (α : Type) where
   q0 : α
@@ -315,7 +317,7 @@ def violinSelect (eps : α) (vals : List α) (x0 x1 : α) : List α :=
   (vals.zip sel).filterMap fun vs => if vs.2 then some vs.1 else none
 
 /-- the density profile of one column: the values handed to `gaussian_kde` and the sorted abscissae
-(`npts // 2` regular points and `npts // 2` sample quantiles shifted by `err`);
+(`npts - npts // 2` regular points and `npts // 2` sample quantiles shifted by `err`);
 `none`: fewer than 3 finite values or a constant column, no profile -/
 def violinGrid (eps : α) (data : List (Option α)) (npts : Nat) (err : List α) :
     Except Err (Option (List α × List α)) :=
@@ -328,7 +330,7 @@ def violinGrid (eps : α) (data : List (Option α)) (npts : Nat) (err : List α)
     let s := sortL vals
     let qv ← (linspace 0 1 m).mapM fun q => pquantile s q
     pure (some (violinSelect eps vals x0 x1,
-                sortL (linspace x0 x1 m ++ List.zipWith (fun a b => a + b) qv err)))
+                sortL (linspace x0 x1 (npts - m) ++ List.zipWith (fun a b => a + b) qv err)))
   | _, _ => .ok none
 
 /-- `(y - y.min()) / (y.max() - y.min())` -/
